@@ -292,3 +292,67 @@ class RegexEscapeGuard(Contract):
 
     def frame_ok(self, I, inp, obj, name):
         return False
+
+
+@register
+class QueryExpressionPlaceholder(Contract):
+    """query_expression_placeholders: a value consisting of exactly one placeholder that this item handles (include / exclude list) becomes
+    the query expression with the mapped identifier; an unhandled placeholder is left alone; a placeholder mixed with other parts is an
+    error; values without placeholders are left alone"""
+    id = "C17.QueryExpressionPlaceholderTransformation.apply_string_value"
+    target = "sigma.processing.transformations.placeholder:QueryExpressionPlaceholderTransformation.apply_string_value"
+    props = ("C17", "C12")
+    cases = tuple((shape, flt) for shape in ("p", "ps", "sp", "s", "") for flt in ("none", "include", "exclude"))
+    assumed = ["SigmaQueryExpression constructor abstract; include / exclude lists of one (symbolic) name, unrolled"]
+
+    def setup(self, E):
+        E.summaries["sigma.types:SigmaQueryExpression"] = lambda I, so, a, k: SObj("QE", {"a": list(a), "k": dict(k)})
+
+    def args(self, I, case):
+        shape, flt = case
+        idx = I.E.index
+        P = idx.lookup("sigma.types:Placeholder")
+        name = I.fresh("placeholder_name", "str")
+        parts = [SObj(P, {"name": name}) if ch == "p" else I.fresh(f"text{i}", "str") for i, ch in enumerate(shape)]
+        val = SObj(idx.lookup("sigma.types:SigmaString"), {"s": parts}, lazy=True)
+        listed = I.fresh("listed_name", "str")
+        mapped = I.fresh("mapped_identifier", "str")
+        I.ctx.assume(z3.Length(mapped.t) > 0)
+        me = SObj(idx.lookup("sigma.processing.transformations.placeholder:QueryExpressionPlaceholderTransformation"),
+                  {"include": [listed] if flt == "include" else None, "exclude": [listed] if flt == "exclude" else None, "expression": I.fresh("expression", "str"),
+                   "mapping": {name: mapped} if flt != "none" else {}}, lazy=True)
+        return {"self": me, "args": [I.fresh("field", "str"), val], "name": name, "listed": listed, "mapped": mapped, "case": case}
+
+    def handled(self, inp):
+        shape, flt = inp["case"]
+        same = inp["name"].t == inp["listed"].t
+        return z3.BoolVal(True) if flt == "none" else same if flt == "include" else z3.Not(same)
+
+    def post(self, I, inp, r):
+        shape, flt = inp["case"]
+        c = I.ctx
+        if shape in ("s", ""):
+            c.require(r is None, "a value without placeholder is left alone")
+        elif shape == "p":
+            if r is None:
+                c.require(z3.Not(self.handled(inp)), "a placeholder this item handles is replaced")
+            else:
+                ok = isinstance(r, SObj) and r.cls == "QE"
+                c.require(ok, "a query expression (or None) is returned")
+                if ok:
+                    c.require(self.handled(inp), "a placeholder this item does not handle (include / exclude list) is left alone")
+                    a = r.fields["a"]
+                    c.require(len(a) == 2 and a[0] is inp["self"].fields["expression"], "the configured expression is used")
+                    want = inp["mapped"] if flt != "none" else inp["name"]
+                    c.require(len(a) == 2 and a[1] is want, "the identifier is the mapped one, or the placeholder name without mapping")
+        elif r is None:
+            c.require(z3.Not(self.handled(inp)), "a handled placeholder mixed with other parts is rejected, not skipped")
+        else:
+            c.require(False, "a placeholder mixed with other parts is never turned into a query expression")
+
+    def raises(self, I, inp, exc):
+        shape, flt = inp["case"]
+        I.ctx.require(exc_is(I, exc, "SigmaValueError") and shape in ("ps", "sp"), f"SigmaValueError exactly for a placeholder mixed with other parts (got {exc_name(exc)})", kind="SAFE")
+
+    def frame_ok(self, I, inp, obj, name):
+        return False
